@@ -48,7 +48,7 @@ def run(tier):
     with lib.Scratch("c20") as sc:
         ce.set_workdir(sc.dir)
         # design-level model checks run beside the recording (they only need TLC)
-        pool = ThreadPoolExecutor(max_workers=4)
+        pool = ThreadPoolExecutor(max_workers=8)
         mc_jobs = [pool.submit(lib.mc, "MC_CifEdit", cfg, sc, workers=4 if tier == "quick" else 8) for cfg in t["mc"]]
         negs = NEGATIVE if tier == "thorough" else NEGATIVE[:2]
         neg_jobs = [pool.submit(lib.mc, "MC_CifEdit", cfg, sc, expect_violation="CliEqualsLib", workers=2)
@@ -115,8 +115,9 @@ def run(tier):
         rep.assumptions += [
             "the harness's own mmCIF emitter and CIF 1.1 tokenizer are faithful (each generated document is "
             "re-read by the tokenizer and must come back identical, else machinery failure)",
-            "documents have one data block; quoted null markers ('?' as a literal string) and empty strings are "
-            "not generated (the mmCIF reader used by the code cannot represent them distinctly)",
+            "documents have one data block (the code edits only the first block; multi-block files are outside "
+            "the statement); quoted null markers ('?' as a literal string, indistinguishable from the null marker "
+            "for the mmCIF reader the code uses) are not generated; empty strings appear only in the random documents",
             "alphabets have no repeated letter and at least as many letters as distinct values (statement's domain)",
             "text identity is compared through (length, SHA-256, first 2000 characters)",
             "the CLI is bound in-process: transformer.main() with sys.argv set, on real files in a scratch directory",
